@@ -195,9 +195,9 @@ fn c11_v4_dispatch_icmp_37() {
 
 /// UDP over the real `dispatch_udp_probe` (privileged / raw): classic (flags empty), Paris
 /// (checksum swap) and Dublin (IP identification = probe identifier).
-fn dispatch_udp(size: u16, paris: bool) {
+fn dispatch_udp(size: u16, paris: bool, dublin_flag: bool) {
     let ipv4 = any_ipv4_cfg(Protocol::Udp, size, false);
-    let probe = any_probe(if paris { Flags::PARIS_CHECKSUM } else if kani::any() { Flags::DUBLIN_IPV6_PAYLOAD_LENGTH } else { Flags::empty() });
+    let probe = any_probe(if paris { Flags::PARIS_CHECKSUM } else if dublin_flag { Flags::DUBLIN_IPV6_PAYLOAD_LENGTH } else { Flags::empty() });
     unsafe {
         EXPECT = Expect {
             active: true,
@@ -252,22 +252,22 @@ fn c19_v4_expected_checksum_payload_9() {
 #[kani::proof]
 #[kani::unwind(45)]
 fn c11_v4_dispatch_udp_min() {
-    dispatch_udp(28, false);
+    dispatch_udp(28, false, false);
 }
 #[kani::proof]
 #[kani::unwind(45)]
 fn c11_v4_dispatch_udp_odd() {
-    dispatch_udp(29, false);
+    dispatch_udp(29, false, true);
 }
 #[kani::proof]
 #[kani::unwind(45)]
 fn c11_v4_dispatch_udp_37() {
-    dispatch_udp(37, false);
+    dispatch_udp(37, false, false);
 }
 #[kani::proof]
 #[kani::unwind(45)]
 fn c13_v4_dispatch_udp_paris() {
-    dispatch_udp(37, true);
+    dispatch_udp(37, true, false);
 }
 
 /// Packet size guards: every size outside [28, 1024] is rejected with InvalidPacketSize before
